@@ -149,7 +149,10 @@ SessionChecks(e) ==
     [] e.ev = "make" ->
          LET m == MoveOfJson(e.m)  mk == DoMake(live, m) IN
          {<<"make_precondition", m = <<0, 0, 0, 0>> \/ m \in PseudoLegal(live.r)>>,
-          <<"pos_eq_model", pos = mk.board.r>>,
+          \* what a null move does to the halfmove clock is the code's own business (no listed property says):
+          \* the model follows the observed clock there and only notes a difference from the transcription
+          <<"pos_eq_model", IF m = <<0, 0, 0, 0>> THEN [pos EXCEPT !.hm = 0] = [mk.board.r EXCEPT !.hm = 0] ELSE pos = mk.board.r>>,
+          <<"x_null_move_clock_as_transcribed", pos.hm = mk.board.r.hm>>,
           <<"sets_eq_model", SetsMatch(e.der, mk.board)>>,
           <<"exposed_flag", e.exposed = IsAttacked(pos.cells, KingSq(pos.cells, Other(pos.side)), pos.side)>>}
          \cup (IF Prop = "C05" THEN StateChecksC05(e) ELSE {})
@@ -207,6 +210,13 @@ SanLikeOK(pos, LS, like, res, m) ==
   LET d == SanDescribe(like.text)  RS == SanResolveIn(LS, d)  ex == SanExactIn(pos, LS, like.text) IN
   /\ res = "ok" => (m \in LS /\ (d.form # "none" => (m \in RS /\ Cardinality(RS) = 1)))
   /\ ex # {} => (res = "ok" /\ m \in ex)
+
+\* push as the abstract chain does it - except that the halfmove clock after a NULL move is taken from the
+\* observation (the code's null move has a clock rule of its own that no listed property constrains)
+ChPushObs(c, m, o) ==
+  IF m = NullMove
+  THEN [c EXCEPT !.moves = Append(@, m), !.hist = Append(@, [ApplyMove(Cur(c), m) EXCEPT !.hm = o.last.pos.hm])]
+  ELSE ChPush(c, m)
 
 \* the logged observation agrees with the abstract chain
 ObsChecks(c, o) ==
@@ -274,7 +284,10 @@ ChainChecks(e) ==
              <<"try_unchecked_within_contract_is_accepted", IsTryLike(e.like) => e.res = "ok">>,
              <<"san_text_sound_and_complete", IsSanLike(e.like) => SanLikeOK(cur, LS, e.like, e.res, m)>>,
              <<"refused_push_changes_nothing", e.res # "ok" => e.obs = pobs>>}
-            \cup (IF e.res = "ok" /\ (m \in LS \/ tryOK) THEN ObsChecks(ChPush(ch, m), e.obs) ELSE {})
+            \cup (IF e.res = "ok" /\ (m \in LS \/ tryOK)
+                  THEN ObsChecks(ChPushObs(ch, m, e.obs), e.obs)
+                       \cup {<<"x_null_move_clock_as_transcribed", Cur(ChPush(ch, m)).hm = e.obs.last.pos.hm>>}
+                  ELSE {})
     [] e.ev = "c_pop" ->
          {<<"pop_result", IF ChLen(ch) = 0 THEN e.res = "none"
                           ELSE e.res = "some" /\ MoveOfJson(e.m) = ch.moves[ChLen(ch)]>>}
@@ -314,7 +327,7 @@ ChainChecks(e) ==
 \* the abstract chain follows the implementation where that is meaningful; otherwise the session is dead
 ChainNext(e) ==
   CASE e.ev = "c_new" -> NewChain(PosOfJson(e.pos))
-    [] e.ev = "c_push" -> IF e.res = "ok" THEN ChPush(ch, MoveOfJson(e.m)) ELSE ch
+    [] e.ev = "c_push" -> IF e.res = "ok" THEN ChPushObs(ch, MoveOfJson(e.m), e.obs) ELSE ch
     [] e.ev = "c_pop" -> ChPop(ch)
     [] e.ev \in {"c_set_outcome", "c_reset_outcome"} -> [ch EXCEPT !.outcome = e.o]
     [] e.ev = "c_clear_outcome" -> [ch EXCEPT !.outcome = NoOutcome]
@@ -337,7 +350,7 @@ FenChecks(e) ==
    <<"input_in_scope", IF e.kind = "board" THEN IsValid(pos)
                        ELSE (pos.ep = -1 \/ RankOf(pos.ep) = EpSrcRank(pos.side))>>,
    \* (beyond the listed property: the pretty-printer of the same board, both styles)
-   <<"pretty_text", ("pretty_ascii" \in DOMAIN e) =>
+   <<"x_pretty_text", ("pretty_ascii" \in DOMAIN e) =>
                        (e.pretty_ascii = PrettyText(pos, FALSE) /\ e.pretty_utf8 = PrettyText(pos, TRUE))>>}
 
 FenParseChecks(e) ==
@@ -406,11 +419,12 @@ ParseChecks(e) ==
                                /\ (e.res = "ok" => e.val = (IF t[1] = 46 THEN 0 ELSE CellOfCh(t[1])))
          [] e.what = "rights" -> ((e.res = "ok") <=> (RightsOfText(t) # -1))
                                  /\ (e.res = "ok" => e.val = RightsOfText(t))
-         [] e.what = "uci" -> ((e.res = "ok") <=> UciParse(t).ok)
+         [] e.what = "uci" -> (UciParse(t).ok => e.res = "ok")
          [] e.what = "rawfen" -> (FenRead(t).ok => e.res = "ok")
-         [] e.what = "from_uci" ->
-              LET u == UciParse(t) IN (~u.ok => e.res # "ok")
-         [] OTHER -> TRUE>>}
+         [] OTHER -> TRUE>>,
+   \* (no listed property says what happens to text outside the UCI syntax, short of "no panic": a note, not a verdict)
+   <<"x_text_outside_the_uci_syntax_is_refused",
+       e.what \in {"uci", "from_uci"} => (e.res = "ok" => UciParse(t).ok)>>}
 
 (***************************************************************************)
 (* C11 validation, C15 tables, C18 symmetry, C19 capacity, C20 types.      *)
@@ -541,18 +555,18 @@ TConstsChecks(e) ==
    <<"pawn_deltas", e.fwd = <<-8, 8>> /\ e.left = <<-9, 7>> /\ e.right = <<-7, 9>>>>}
 
 TMoveApiChecks(e) ==
-  {<<"from_castling", e.castlings = <<CastlingMoveOf(0, SideQ), CastlingMoveOf(0, SideK), CastlingMoveOf(1, SideQ), CastlingMoveOf(1, SideK)>>>>,
-   <<"kind_promote_and_matches_piece", Len(e.kinds) = 10 /\ \A i \in 1..10 : LET x == e.kinds[i] IN
+  {<<"x_from_castling", e.castlings = <<CastlingMoveOf(0, SideQ), CastlingMoveOf(0, SideK), CastlingMoveOf(1, SideQ), CastlingMoveOf(1, SideK)>>>>,
+   <<"x_kind_promote_and_matches_piece", Len(e.kinds) = 10 /\ \A i \in 1..10 : LET x == e.kinds[i] IN
         x.kind = i - 1 /\ x.promote = KindPromotes(i - 1) /\ \A pc \in 0..5 : x.matches[pc + 1] = KindMatchesPiece(i - 1, pc)>>,
-   <<"unset_color", \A cr \in 0..15 : \A c \in {0, 1} : e.unset_color[cr + 1][c + 1] = UnsetColor(cr, c)>>,
-   <<"ep_dest", \A c \in {0, 1} : e.ep_dest[c + 1][1] = -1 /\ \A s \in Sq : e.ep_dest[c + 1][s + 2] = EpDestOf(c, s)>>,
-   <<"put2_get2", Len(e.put2) = 64 /\ \A i \in 1..64 : LET x == e.put2[i] IN
+   <<"x_unset_color", \A cr \in 0..15 : \A c \in {0, 1} : e.unset_color[cr + 1][c + 1] = UnsetColor(cr, c)>>,
+   <<"x_ep_dest", \A c \in {0, 1} : e.ep_dest[c + 1][1] = -1 /\ \A s \in Sq : e.ep_dest[c + 1][s + 2] = EpDestOf(c, s)>>,
+   <<"x_put2_get2", Len(e.put2) = 64 /\ \A i \in 1..64 : LET x == e.put2[i] IN
         x.at = <<MkSq(x.file, x.rank)>> /\ x.get2 = x.cell /\ x.get = x.cell>>,
-   <<"initial_values", PosOfJson(e.initial) = InitialPos /\ PosOfJson(e.raw_initial) = InitialPos /\ PosOfJson(e.raw_empty) = EmptyPos
+   <<"x_initial_values", PosOfJson(e.initial) = InitialPos /\ PosOfJson(e.raw_initial) = InitialPos /\ PosOfJson(e.raw_empty) = EmptyPos
         /\ IsValid(InitialPos)>>,
-   <<"new_initial", PosOfJson(e.new_initial.start) = InitialPos /\ PosOfJson(e.new_initial.last) = InitialPos
+   <<"x_new_initial", PosOfJson(e.new_initial.start) = InitialPos /\ PosOfJson(e.new_initial.last) = InitialPos
         /\ e.new_initial.len = 0 /\ e.new_initial.eq_new /\ e.new_initial.outcome_none>>,
-   <<"null_move", MoveOfJson(e.null_move) = <<0, 0, 0, 0>> /\ e.null_uci = UciOf(<<0, 0, 0, 0>>) /\ e.kind_null_default = KNull>>}
+   <<"x_null_move", MoveOfJson(e.null_move) = <<0, 0, 0, 0>> /\ e.null_uci = UciOf(<<0, 0, 0, 0>>) /\ e.kind_null_default = KNull>>}
 
 TGeometryChecks(e) ==
   {<<"shift", \A s \in Sq : \A df \in -8..8 : \A dr \in -8..8 :
@@ -587,10 +601,10 @@ UciListChecks(e) ==
 TOutcomesChecks(e) ==
   LET RS == {e.rows[i] : i \in 1..Len(e.rows)} IN
   {<<"all_outcomes_covered", {x.o : x \in RS} = AllOutcomes>>,
-   <<"outcome_display", \A x \in RS : x.text = OutcomeText(x.o) /\ x.status = GameStatusText(x.o)>>,
+   <<"x_outcome_display", \A x \in RS : x.text = OutcomeText(x.o) /\ x.status = GameStatusText(x.o)>>,
    <<"winner_and_force", \A x \in RS : x.winner = (IF x.o[1] = "win" THEN x.o[2] ELSE -1) /\ x.is_force = IsForcedOutcome(x.o)>>,
    <<"passes_filter", \A x \in RS : x.passes = <<OutcomePasses(x.o, "force"), OutcomePasses(x.o, "strict"), OutcomePasses(x.o, "relaxed")>>>>,
-   <<"status_of_running_game", e.running = GameStatusText(<<"none">>)>>}
+   <<"x_status_of_running_game", e.running = GameStatusText(<<"none">>)>>}
 
 BBBinaryChecks(e) ==
   {<<"binary_set_algebra",
@@ -689,7 +703,7 @@ StepSession(e) ==
              /\ seen' = addSeen
              /\ IF e.ev = "make"
                 THEN LET m == MoveOfJson(e.m)  mk == DoMake(live, m) IN
-                     /\ live' = mk.board
+                     /\ live' = (IF m = <<0, 0, 0, 0>> THEN [mk.board EXCEPT !.r.hm = pos.hm] ELSE mk.board)
                      /\ stk' = Append(stk, [m |-> m, u |-> mk.undo, before |-> live, obs |-> obs])
                 ELSE LET t == stk[Len(stk)] IN
                      /\ live' = DoUnmake(live, t.m, t.u)
